@@ -1,6 +1,7 @@
 package adwire
 
 import (
+	"os"
 	"encoding/json"
 	"fmt"
 	"math/rand"
@@ -301,3 +302,57 @@ func (st *LitStats) Publish(c *core.Ctx) {
 		}
 	}
 }
+
+// NumericExtremes expands the digit / sign / dot / exponent classes into the
+// extreme members the token enumeration cannot reach by length.
+func NumericExtremes() []string {
+	return []string{
+		"9223372036854775807", "-9223372036854775807", "-9223372036854775808", "9223372036854775808",
+		"-9223372036854775809", "18446744073709551616", "99999999999999999999",
+		"2147483647", "-2147483648", "4294967296",
+		"1.7976931348623157e308", "-1.7976931348623157e308", "1.0e400", "-1.0e400", "4.9e-324", "1.0e-400",
+		"2.2250738585072014e-308", "0.1", "0.30000000000000004", "123456789.123456789", "1e21", "1E+21", "1e-7",
+		"1.5e+3", "1.5E-3", "-0.0", "-0", "0.0", "00.5", "3.", "3.e2", "007", "-007", "0x10", "0x1.8p1", "0X1P-2",
+		"1_000", "1_0.5", "+5", "+5.5", "- 5", "-  5.5", "-\t5", "5 ", " 5", "\t5.5\t",
+		"tRuE", " TRUE ", "\tfalse\t", "True", "FALSE", "truE ",
+		"Infinity", "-Infinity", "NaN", "inf", "-inf", "-Inf.", "nan.",
+		`"" ""`, `"a" "b"`, `"a"  "b"`, `"a" + "b"`, `"a" == "b"`, `"a" ? "b" : "c"`, `"x" ?: "y"`, `"a".."b"`,
+		`"a\"b"`, `"a\\"`, `"\\"`, `"tab\there"`, `"nl\nhere"`, `"\101"`, `"\S"`, `"C:\dir"`, `"trail\"`,
+		`"é"`, `"日本語"`, `"😀"`, `" "`, `""`, `"'"`, `"a=b"`, `"a;b"`,
+	}
+}
+
+// ReplayFileC08 re-runs one recorded failure of C08.
+func ReplayFileC08(c *core.Ctx) bool {
+	if c.Replay == "" {
+		return false
+	}
+	b, err := kitRead(c.Replay)
+	if err != nil {
+		c.Broken("cannot read replay file: %v", err)
+		return true
+	}
+	var rf struct {
+		Scenario json.RawMessage `json:"scenario"`
+	}
+	var kind struct {
+		Kind string `json:"kind"`
+	}
+	if err := json.Unmarshal(b, &rf); err != nil || json.Unmarshal(rf.Scenario, &kind) != nil {
+		c.Broken("bad replay file %s", c.Replay)
+		return true
+	}
+	switch kind.Kind {
+	case "LiteralShortcut":
+		var lc LitCase
+		_ = json.Unmarshal(rf.Scenario, &lc)
+		st := newLitStats()
+		runLitCase(c, st, lc, Key(fmt.Sprint(c.Seed)), false)
+		c.Add("traces_validated_against_impl", st.Conform)
+	default:
+		c.Broken("replay file of unknown kind %q", kind.Kind)
+	}
+	return true
+}
+
+func kitRead(p string) ([]byte, error) { return os.ReadFile(p) }
